@@ -23,7 +23,7 @@ from props import _tv, _c05, _c05progs
 
 PROPERTY = "C05"
 LEVEL = "translation_validation"
-JOB_TIMEOUT = {"quick": 240, "thorough": 900}
+JOB_TIMEOUT = {"quick": 300, "thorough": 1200}
 TASKS_PER_CHILD = 64
 BOUNDS = {
     "quick": {"programs": "corpus/cprogs.py (37 C functions) + families of props/_c05progs.py: x op K / K op x with boundary "
@@ -68,8 +68,8 @@ class CodegenHarness(Harness):
     cut_allowance = 10 ** 6          # unwinding cuts are expected and counted
     W = 80
     choose_limit = 8                 # symbolic addresses with <= 8 feasible values fork; wider ones stay symbolic (arrays)
-    timeout_ms = 10000
-    prove_timeout_ms = 60000
+    timeout_ms = 30000
+    prove_timeout_ms = 20000         # then cvc5 (bit-vectors as integers): narrow division identities need it
     shim_modules = ()
 
     def __init__(self, prog, level, rvc, argext="junk"):
@@ -256,7 +256,8 @@ def mk_code(**kw):
     t0 = time.process_time()
     h = CodegenHarness(**kw)
     known = load_known(os.path.join(os.path.dirname(os.path.dirname(os.path.abspath(__file__))), "known_findings.json"), PROPERTY)
-    res = run_harness(h, known)
+    tier = os.environ.get("VERIF_TIER_ACTIVE", "quick")
+    res = run_harness(h, known, deadline=time.time() + 0.6 * JOB_TIMEOUT[tier])     # then remaining paths are cut and counted
     res["programs"] = 1
     res["wall_s"] = time.process_time() - t0        # CPU seconds of this job (the machine is shared; wall time is noise)
     res["disagreements_checked"] = res.get("obligations", 0)
